@@ -62,6 +62,7 @@ static void issue_write(Tcp::Transport* tr, int fd, Scenario* sc, size_t i) {
     sc->issued++;
 }
 
+static std::shared_ptr<Tcp::Peer> g_flush_other;
 class WHandler : public Tcp::Handler {
 public:
     PROTOTYPE_OF(Tcp::Handler, WHandler)
@@ -98,6 +99,15 @@ public:
             for (size_t i = 0; i < sc->writes.size(); i++) if (!sc->writes[i].foreign) issue_write(transport(), peer->fd(), sc, i);
         } else if (cmd == "SLEEP") {
             lv::msleep(250);
+        } else if (cmd.rfind("FLUSH ", 0) == 0) {
+            // "FLUSH <tag>": a write for ANOTHER connection of this worker (registered under g_flush_other), then a write for this one, then an
+            // explicit Transport::flush() - what a streamed response's flush does.  Whatever the flush finds in the shared queue belongs to
+            // somebody and has to be written (or armed for writing), not only the entries of the connection that asked for the flush.
+            unsigned tg = (unsigned)atoi(cmd.c_str() + 6);
+            std::shared_ptr<Tcp::Peer> other; { std::lock_guard<std::mutex> g(g_m); other = g_flush_other; }
+            if (other) { std::string dy = tagged(tg + 1, 524); transport()->asyncWrite(other->fd(), RawBuffer(dy, dy.size())); }
+            std::string dx = tagged(tg, 300); transport()->asyncWrite(peer->fd(), RawBuffer(dx, dx.size()));
+            transport()->flush();
         } else if (cmd == "PING") {
             transport()->asyncWrite(peer->fd(), RawBuffer(std::string("PONG!"), 5));
         }
@@ -349,10 +359,22 @@ static void run_c13s(long cases) {
         g_distinct.add("c13s|" + std::to_string(n % 64));
         count("stale_then_live_writes");
         { std::lock_guard<std::mutex> g(g_m); g_peers.erase(la); }
+        {   // an explicit flush asked for by one connection while a write for another connection is in the shared queue: both arrive
+            unsigned tg = 30000 + (unsigned)(n % 1000) * 4;
+            { std::lock_guard<std::mutex> g(g_m); g_flush_other = pb; }
+            c.send_all("FLUSH " + std::to_string(tg) + "\n");
+            std::string wx = tagged(tg, 300), wy = tagged(tg + 1, 524), gx, gy; double ef = lv::now() + 4.0 * lv::load_factor();
+            while ((gx.size() < wx.size() || gy.size() < wy.size()) && lv::now() < ef) { if (gx.size() < wx.size()) c.read_some(gx, 30, wx.size() - gx.size()); if (gy.size() < wy.size()) b.read_some(gy, 30, wy.size() - gy.size()); }
+            { std::lock_guard<std::mutex> g(g_m); g_flush_other.reset(); }
+            g_evals++;
+            if (gy != wy) violation(g_opts.get("kp", "c13") + ":server:write-for-another-connection-stranded-by-a-flush", "a write for connection Y was in the shared queue when connection X asked for a flush: Y received " + std::to_string(gy.size()) + " of " + std::to_string(wy.size()) + " bytes within the bound (X received " + std::to_string(gx.size()) + " of " + std::to_string(wx.size()) + ")", g_case);
+            else if (gx != wx) violation(g_opts.get("kp", "c13") + ":server:flushed-write-not-delivered", "the write of the connection that asked for the flush did not arrive (" + std::to_string(gx.size()) + " of " + std::to_string(wx.size()) + " bytes)", g_case);
+            count("flushes_with_another_connections_write_queued");
+        }
         {   // bursts: while the worker is kept away from its loop, far more items pile up in its queues than it usually finds
             // there (new connections in the peers queue, foreign writes in the writes queue); once it is back every one of
             // them must be taken: a consumer that stops draining with items queued has used up the only notification
-            int K = r.range(130, 220), Wn = r.range(130, 300);
+            int K = r.range(130, 220), Wn = r.chance(1, 3) ? r.range(130, 300) : r.chance(1, 2) ? r.range(300, 900) : r.range(1000, 3000);   // (hundreds to thousands of entries: more than any batch size)
             c.send_all("SLEEP\nSLEEP\n");
             lv::msleep(30);
             std::vector<std::unique_ptr<lv::Conn>> burst; for (int k = 0; k < K; k++) { burst.emplace_back(new lv::Conn()); if (!burst.back()->open_to(srv.port)) { burst.pop_back(); break; } burst.back()->send_all("PING\n"); }
@@ -447,7 +469,7 @@ static void run_c07(long cases) {
         int when = r.range(0, 2);   // other connections issue their request: 0 during the block, 1 before and during, 2 during, repeatedly
         // 0 fixed response, 1 streamed response flushed per chunk, 2 fixed response + second request from the blocked peer while the worker is busy,
         // 3 file response (sendfile), 4 fixed response + the blocked peer sends the first part of its next request during the stall
-        int variant = (int)((n + g_opts.shard) % 6);   // 5 streamed response resumed by a later flush of its own handler (the client starts reading while the handler is still flushing)
+        int variant = (int)((n + g_opts.shard) % 7);   // 6 like 4, but the partial request and the start of reading reach a worker that is away: ONE event, readable and writable, and nothing new to write   // 5 streamed response resumed by a later flush of its own handler (the client starts reading while the handler is still flushing)
         double stall = 0.2 + r.below(10) * 0.1;
         std::string wt = Json().num("i", idx).str("phase", "c07").num("big_bytes", (long long)big).num("extra_writes", extra).num("others", nOthers).num("when", when).num("stall_s_x10", (long long)(stall * 10)).done();
         set_case(idx, wt);
@@ -510,7 +532,7 @@ static void run_c07(long cases) {
         g_counts["max_write_attempts_while_blocked"] = std::max(g_counts["max_write_attempts_while_blocked"], attempts);
         // correct code: at most one attempt per writable edge; A never drains, so no more than a handful
         if (key.empty() && attempts > 50) { key = "c07:busy-wait-on-blocked-peer"; wt = Json().num("i", idx).str("phase", "c07").num("write_attempts_while_blocked", attempts).num("would_block_results", eagainAfter - eagainBefore).num("stall_ms", (long long)(stall * 1000)).done(); }
-        std::thread slowThread;
+        std::thread slowThread; std::string prebuf;
         if (key.empty() && variant == 2) {
             // the stall ends (A starts reading) and A's next request arrives while the worker is away from its event loop:
             // both readiness changes reach the worker in ONE event
@@ -519,6 +541,16 @@ static void run_c07(long cases) {
             lv::msleep(150);
             a.send_all("GET /second HTTP/1.1\r\nHost: x\r\n\r\n");
         }
+        if (key.empty() && variant == 6) {
+            // the worker is away in another connection's handler; meanwhile the blocked peer sends the beginning of its next request (input
+            // that completes nothing, so nothing new is queued for it) and starts reading: when the worker comes back it finds the connection
+            // readable and writable in ONE event, and the writable half is all that will ever tell it to go on writing
+            lv::Conn* o = others[0].get();
+            slowThread = std::thread([o] { std::string b; o->send_all("GET /slow?ms=700 HTTP/1.1\r\nHost: x\r\n\r\n"); lv::read_response(*o, b, 0, 8000); });
+            lv::msleep(150);
+            a.send_all("GET /sec");
+            { std::string part; a.read_some(part, 350, 200000); prebuf = part; }   // reading starts while the worker is still away
+        }
         if (key.empty() && variant == 4) {
             // input from the blocked peer that completes no request (nothing is queued in answer): it must not use up the
             // worker's interest in the descriptor becoming writable
@@ -526,13 +558,13 @@ static void run_c07(long cases) {
         }
         // release: A reads everything
         if (key.empty()) {
-            std::string buf; lv::HttpMsg m;
+            std::string buf = prebuf; lv::HttpMsg m;
             double deadline = lv::now() + 20 * lf + big / 2e6;
             for (;;) { m = lv::parse_http(buf, 0, true); if (m.complete || !m.error.empty() || lv::now() > deadline) break; bool eof = false; if (!a.read_some(buf, 200, 1 << 30, &eof)) break; }
             if (!m.complete) key = "c07:blocked-peer-not-completed-after-release";
             else if (m.body != tagged(77, big)) key = "c07:blocked-peer-body-corrupt";
-            else if (variant == 2 || variant == 4) {
-                if (variant == 4) a.send_all("ond HTTP/1.1\r\nHost: x\r\n\r\n");
+            else if (variant == 2 || variant == 4 || variant == 6) {
+                if (variant == 4 || variant == 6) a.send_all("ond HTTP/1.1\r\nHost: x\r\n\r\n");
                 size_t off = m.consumed + (size_t)extra * 1000; double d2 = lv::now() + 10 * lf; lv::HttpMsg m2;
                 for (;;) { m2 = buf.size() >= off ? lv::parse_http(buf, off, true) : lv::HttpMsg(); if (m2.complete || !m2.error.empty() || lv::now() > d2) break; a.read_some(buf, 100); }
                 if (!m2.complete || m2.body != "pong:/second") key = "c07:request-sent-during-the-stall-never-answered";
